@@ -11,7 +11,9 @@ REAL exported functions on every case and records input and output; spec/Placeme
 the recorded file, compares every output with the model of the code (strict, DRIFT) and evaluates the
 property formulas on it (monitor, VIOL).  Expectations are computed by the TLA+ definitions only.
 
-Binding (round level): the OFFERS rounds of a TLC-enumerated catalogue (<= 2 offers x <= 3 descriptors) are rendered
+Binding (round level): the OFFERS rounds of a TLC-enumerated catalogue (<= 2 offers x <= 3 descriptors, plus rounds whose
+task roles SHARE a task class - the template constrains machine_type, one role overrides it, its sibling does not -
+deployed twice in one core so that the task manager's class registry carries over) are rendered
 as workflows + task templates + clusters and run on the REAL core in the whole-core simulation (harness/coresim);
 the master-side record (offers sent, ACCEPT/DECLINE received, core panic) is validated by TLC: PlacementOK as soft
 invariants (monitor) and the implementation-shaped round model as conformance.  The round-level trace specification
@@ -20,6 +22,7 @@ that self-test is no evidence about the real scheduler and is labelled so.
 """
 import json
 import re
+from concurrent.futures import ThreadPoolExecutor
 
 import coresim as cs
 import tlaval
@@ -33,8 +36,8 @@ KEY_PANIC = "no-port-left-panics-core"
 W = min(4, vlib.NCPU)
 EXEC = {"cpu": 10, "mem": 64}   # the core's default executor share: executorCPU 0.01, executorMemory 64
 
-PURE_INVS = ["ImplSatIsSat", "ImplParseIsParse", "SatIsConjunction", "MergeNearestWins", "FitsMonotone", "FitsImplSound",
-             "ParseDenotes"]
+PURE_INVS = ["ImplSatIsSat", "ImplParseIsParse", "SatIsConjunction", "MergeNearestWins", "SharedClassIndependent", "FitsMonotone",
+             "FitsImplSound", "ParseDenotes"]
 # model invariant -> the monitor's soft invariant that must flag the replayed counterexample
 MONITOR_OF = {"ImplSatIsSat": "SatAllConstraints", "ImplParseIsParse": "RangesAsWritten",
               "RoundP1": "P1_ConstraintsAndResources", "RoundP2": "P2_TaskPorts", "RoundP3": "P3_PortsOfferedAndDistinct",
@@ -56,6 +59,17 @@ def consts(sat, rng, scalar, static, classes, panic, tier):
   Code_MinOnEmptyPanics = %s
   Tier = "%s"
 """ % (tf(sat), tf(rng), tf(scalar), tf(static), tf(classes), tf(panic), tier)
+
+
+def model_check(ctx, *a, **kw):
+    """ctx.model_check, once more if TLC was killed from outside (rc 143/137: other jobs share the machine)."""
+    try:
+        return ctx.model_check(*a, **kw)
+    except vlib.Inconclusive as e:
+        if "rc=143" not in str(e) and "rc=137" not in str(e):
+            raise
+        ctx.log("TLC was killed from outside; one more attempt")
+        return ctx.model_check(*a, **kw)
 
 
 def cfg(spec, k, invs):
@@ -110,19 +124,28 @@ def run(ctx):
         "cpu is compared in milli-cores after rounding; dynamic and control ports are read from TaskInfo.Resources only",
     ]
     ctx.rule = ("pure level: one evaluation = one input case of Satisfy / MergeParent / role chain + BuildDescriptorConstraints (+Satisfy on "
-                "3 agents) / Resources.Satisfy / RangesFromExpression (+ResourceWants YAML), enumerated exhaustively by TLC from the "
+                "3 agents) / several task roles sharing ONE task class whose template constrains an attribute some roles override, built "
+                "twice over the same class registry entry (+Satisfy on 4 agents) / Resources.Satisfy / RangesFromExpression (+ResourceWants "
+                "YAML), enumerated exhaustively by TLC from the "
                 "catalogues of Placement.tla (tier-sized) plus seeded random cases beyond them (tlc -simulate, RandomElement); every case "
                 "is run on the real function and validated by TLC; distinct = distinct (function, input).  Round level: one evaluation = one "
                 "round of the catalogue of Placement.tla (offers x descriptors, enumerated by TLC; quick tier: a seeded sample) deployed on the "
-                "real core by the whole-core simulation; every OFFERS round of it (retries included) is validated by TLC")
+                "real core by the whole-core simulation (rounds with task roles sharing a task class that the model places completely are "
+                "deployed twice in the same core); the first OFFERS round of every deployment is validated by TLC")
 
     # ---------------- 1. pure level: model checking over the catalogues
     k_pure = consts(dev_sat, dev_rng, False, False, True, True, tier)
     invs = list(PURE_INVS)
     predicted = {}   # model invariant -> counterexample case
     first = None
-    while True:
-        r = ctx.model_check("Placement", "pure-" + tier, cfg_text=cfg("PureSpec", k_pure, invs), workers=W, timeout=500)
+    g = None
+    if not dev_sat and not dev_rng:
+        # no open deviation at this level: one TLC run checks the invariants on every case and prints the cases
+        r0 = model_check(ctx, "PlacementGen", "pure-" + tier, cfg_text=cfg("GenPureSpec", k_pure, PURE_INVS + ["EmitCase"]), workers=1, timeout=600)
+        if not r0.violated:
+            g = r0
+    while g is None:
+        r = model_check(ctx, "Placement", "pure-" + tier, cfg_text=cfg("PureSpec", k_pure, invs), workers=W, timeout=500)
         if first is None:
             first = r
         if not r.violated:
@@ -138,7 +161,8 @@ def run(ctx):
         raise vlib.Inconclusive("an open deviation constant does not make the model violate its invariant (catalogue too small?)")
 
     # ---------------- 2. the cases, printed by TLC
-    g = ctx.tlc("PlacementGen", None, workers=1, cfg_text=cfg("GenPureSpec", k_pure, ["EmitCase"]), timeout=500)
+    if g is None:
+        g = ctx.tlc("PlacementGen", None, workers=1, cfg_text=cfg("GenPureSpec", k_pure, ["EmitCase"]), timeout=500)
     cases = g.records("CASE")
     if not g.no_error or len(cases) != g.distinct or not cases:
         ctx.save_debug(g, "tlc_gen.txt")
@@ -187,7 +211,7 @@ def run(ctx):
     for s in scenarios:
         ctx.count_case(key_of(s))
         per_fn[s["fn"]] = per_fn.get(s["fn"], 0) + 1
-    for fn in ("Satisfy", "RoleChain", "ResSatisfy", "ParseRanges"):
+    for fn in ("Satisfy", "RoleChain", "SharedClass", "ResSatisfy", "ParseRanges"):
         ex = [x for x in lines if x["fn"] == fn]
         if ex:
             x = ex[len(ex) // 2]
@@ -240,18 +264,51 @@ def round_level(ctx, binp, dev_sat, dev_rng):
     quick = ctx.tier == "quick"
     tier = ctx.tier
     dev_scalar, dev_static, dev_panic = (ctx.deviation_open(k) for k in (KEY_SCALAR, KEY_STATIC, KEY_PANIC))
-    # 5a. the intended algorithm satisfies PlacementOK (consistency of the relational specification)
     k_rep = consts(False, False, False, False, False, False, tier)
-    rr = ctx.model_check("Placement", "round-repaired-" + tier, cfg_text=cfg("RoundSpec", k_rep, ["RoundOK", "RoundNoPanic"]), workers=W)
+    k_code = consts(dev_sat, dev_rng, dev_scalar, dev_static, True, dev_panic, tier)
+    outs, rounds = gen_rounds(ctx, k_code)
+    # rounds in which the model places every descriptor whatever the order of the offers; those with task roles sharing
+    # a task class are deployed twice in the same core (the class registry persists)
+    places_all = {}
+    for o in outs:
+        key = json.dumps([to_json(x) for x in o[1:4]], sort_keys=True)
+        v = to_json(o[6])
+        places_all[key] = places_all.get(key, True) and not o[5] and not v["undeployed"] and not v["undeployable"]
+    cat = []
+    for r in rounds:
+        rnd = dict(zip(("offers", "descs", "exec"), (to_json(x) for x in r[1:4])))
+        if rnd["exec"] != EXEC:
+            continue
+        shared = len({d.get("class", d["id"]) for d in rnd["descs"]}) < len(rnd["descs"])
+        if shared and places_all.get(json.dumps([rnd["offers"], rnd["descs"], rnd["exec"]], sort_keys=True)):
+            rnd["deployments"] = 2
+        cat.append(rnd)
+    bound = 420 if quick else 3000
+
+    def run_real(cat_):
+        scs = [round_scenario(100 + i, rnd) for i, rnd in enumerate(cat_)]
+        try:
+            return scs, cs.run_scenarios(ctx, scs, timeout=900)
+        except vlib.Inconclusive as e:
+            # hundreds of core processes are started: a port picked as free may be taken by the time the core binds it
+            ctx.log("whole-core simulation failed (%s); one more attempt" % str(e)[:160])
+            return scs, cs.run_scenarios(ctx, scs, timeout=900)
+    # 5d (started early, in the background while TLC works on 5a-5c): the rounds of the catalogue on the REAL core
+    pool = fut = None
+    if len(cat) <= bound:
+        pool = ThreadPoolExecutor(max_workers=1)
+        fut = pool.submit(run_real, cat)
+
+    # 5a. the intended algorithm satisfies PlacementOK (consistency of the relational specification)
+    rr = model_check(ctx, "Placement", "round-repaired-" + tier, cfg_text=cfg("RoundSpec", k_rep, ["RoundOK", "RoundNoPanic"]), workers=W)
     if rr.violated:
         ctx.save_debug(rr, "tlc_round_repaired.txt")
         raise vlib.Inconclusive("the intended placement algorithm violates PlacementOK in the model (specification error): %s" % rr.violated)
     # 5b. the scheduler as it is (deviation constants of the open findings): which parts of PlacementOK break?
-    k_code = consts(dev_sat, dev_rng, dev_scalar, dev_static, True, dev_panic, tier)
     predicted = {}
     parts = list(ROUND_PARTS)
     while parts:
-        ra = ctx.model_check("Placement", "round-code-" + tier, cfg_text=cfg("RoundSpec", k_code, parts), workers=W, timeout=300)
+        ra = model_check(ctx, "Placement", "round-code-" + tier, cfg_text=cfg("RoundSpec", k_code, parts), workers=W, timeout=300)
         if not ra.violated:
             break
         inv = ra.violated[0]
@@ -263,32 +320,23 @@ def round_level(ctx, binp, dev_sat, dev_rng):
     ctx.extra["round_model_of_the_code"] = {"predicted_violations": predicted}
 
     # 5c. self-test of the round-level trace specification on synthetic rounds (no evidence about the code)
-    outs, rounds = selftest(ctx, binp, k_rep, k_code)
+    selftest(ctx, binp, k_rep, k_code, outs)
 
     # 5d. the rounds of the catalogue on the REAL core (whole-core simulation), validated by TLC
-    cat = []
-    for r in rounds:
-        rnd = dict(zip(("offers", "descs", "exec"), (to_json(x) for x in r[1:4])))
-        if rnd["exec"] != EXEC:
-            continue
-        cat.append(rnd)
     want = set(predicted)
-    rng = __import__("random").Random(ctx.seed)
-    if len(cat) > (420 if quick else 3000):
+    if fut is None:
         # bound on the number of rounds: the model's counterexample rounds plus a seeded sample of the rest
+        rng = __import__("random").Random(ctx.seed)
         ce = {(tuple(v["offers"]), tuple(v["descs"])) for v in predicted.values()}
-        forced = [r for r in cat if (tuple(o["id"] for o in r["offers"]), tuple(d["id"] for d in r["descs"])) in ce]
+        forced = [r for r in cat if (tuple(o["id"] for o in r["offers"]), tuple(d["id"] for d in r["descs"])) in ce
+                  or any("class" in d for d in r["descs"])]
         rest = [r for r in cat if r not in forced]
         rng.shuffle(rest)
-        cat = forced + rest[:(420 if quick else 3000) - len(forced)]
-    scenarios = [round_scenario(100 + i, rnd) for i, rnd in enumerate(cat)]
+        scenarios, lines = run_real(forced + rest[:bound - len(forced)])
+    else:
+        scenarios, lines = fut.result()
+        pool.shutdown()
     by_id = {s["id"]: s for s in scenarios}
-    try:
-        lines = cs.run_scenarios(ctx, scenarios, timeout=900)
-    except vlib.Inconclusive as e:
-        # hundreds of core processes are started: a port picked as free may be taken by the time the core binds it
-        ctx.log("whole-core simulation failed (%s); one more attempt" % str(e)[:160])
-        lines = cs.run_scenarios(ctx, scenarios, timeout=900)
     tlines, nrounds, incomplete = project_rounds(lines, by_id)
     if len(incomplete) > max(2, len(scenarios) // 20):
         raise vlib.Inconclusive("%d of %d OFFERS rounds were not answered in time by the core: %s" % (len(incomplete), len(scenarios), incomplete[:10]))
@@ -303,11 +351,13 @@ def round_level(ctx, binp, dev_sat, dev_rng):
         len(scenarios), nrounds, len(tlines), len(viol), len(drift), tr.wall))
     ctx.traces += len(scenarios)
     ctx.extra["rounds_on_real_core"] = {"scenarios": len(scenarios), "offers_rounds": nrounds, "trace_lines": len(tlines),
+                                        "scenarios_with_task_roles_sharing_a_class": sum(1 for s in scenarios if len(set(s["model"]["classes"])) < len(s["model"]["descs"])),
+                                        "scenarios_deployed_twice": sum(1 for s in scenarios if s["model"]["deployments"] > 1),
                                         "not_answered_in_time": len(incomplete),
                                         "core_panics": sum(1 for x in tlines if x["ev"] == "Panic")}
     for s in scenarios:
         m = s["model"]
-        ctx.count_case("round" + json.dumps([m["offers"], m["descs"]], sort_keys=True))
+        ctx.count_case("round" + json.dumps([m["offers"], m["descs"], m["deployments"]], sort_keys=True))
     ex = scenarios[0]
     ctx.sample({"round_scenario": {"offers": ex["model"]["offers"], "descs": ex["model"]["descs"]},
                 "trace": [x for x in tlines if x["scn"] == ex["id"]][:6]})
@@ -340,13 +390,19 @@ def yq(v):
 
 def round_scenario(sid, rnd):
     """One OFFERS round of the catalogue as a whole-core scenario: the offers become the cluster, every descriptor a task
-    template + a task role (its constraint chain spread over template / group role / task role)."""
+    role (its constraint chain spread over task template / group role / task role). Descriptors with the same `class`
+    load ONE task template. rnd["deployments"] > 1: the workflow is deployed that many times in the same core."""
     files = {}
     roles = ""
     classes = {}
+
+    def cts_yaml(cts, ind):
+        if not cts:
+            return ""
+        return ind + "constraints:\n" + "".join("%s  - attribute: %s\n%s    value: %s\n" % (ind, c["attr"], ind, yq(c["value"])) for c in cts)
     for d in rnd["descs"]:
-        cls = "c05s%d%s" % (sid, d["id"])
-        classes[cls] = d["id"]
+        cls = "c05s%d%s" % (sid, d.get("class", d["id"]))
+        classes.setdefault(cls, d["id"])
         if "chain" in d:
             class_cts, group_cts, task_cts = d["chain"]
         else:
@@ -361,34 +417,32 @@ def round_scenario(sid, rnd):
                 y += "  - name: t%d\n    type: push\n" % i
             for i in range(d["ipc_inbound"]):
                 y += "  - name: i%d\n    type: push\n    addressing: ipc\n" % i
-        if class_cts:
-            y += "constraints:\n" + "".join("  - attribute: %s\n    value: %s\n" % (c["attr"], yq(c["value"])) for c in class_cts)
-        y += "command:\n  shell: true\n  value: \"sleep 1000\"\n"
-        files["tasks/%s.yaml" % cls] = y
-
-        def cts_yaml(cts, ind):
-            if not cts:
-                return ""
-            return ind + "constraints:\n" + "".join("%s  - attribute: %s\n%s    value: %s\n" % (ind, c["attr"], ind, yq(c["value"])) for c in cts)
+        y += cts_yaml(class_cts, "")
+        # the task role a launched task belongs to travels in its environment (read back by the step c05_round)
+        y += "command:\n  shell: true\n  value: \"sleep 1000\"\n  env:\n    - \"C05_ROLE={{ c05_role }}\"\n"
+        if files.setdefault("tasks/%s.yaml" % cls, y) != y:
+            raise vlib.Inconclusive("catalogue error: descriptors of class %s differ in their template" % d.get("class"))
+        tag = "    vars:\n      c05_role: %s\n" % yq(d["id"])
         if group_cts is None:
-            roles += "  - name: %s\n" % yq(d["id"]) + cts_yaml(task_cts, "    ") + "    task:\n      load: %s\n" % cls
+            roles += "  - name: %s\n" % yq(d["id"]) + tag + cts_yaml(task_cts, "    ") + "    task:\n      load: %s\n" % cls
         else:
             roles += "  - name: %s\n" % yq("g" + d["id"]) + cts_yaml(group_cts, "    ") + "    roles:\n"
-            roles += "      - name: %s\n" % yq(d["id"]) + cts_yaml(task_cts, "        ") + "        task:\n          load: %s\n" % cls
+            roles += ("      - name: %s\n" % yq(d["id"]) + tag.replace("    ", "        ", 1).replace("\n      ", "\n          ")
+                      + cts_yaml(task_cts, "        ") + "        task:\n          load: %s\n" % cls)
     wf = "c05wf%d" % sid
     files["workflows/%s.yaml" % wf] = "name: %s\nroles:\n%s" % (wf, roles)
     agents = [{"ID": "a" + o["id"], "Host": o["host"], "Attrs": o["attrs"], "CPUs": o["cpus"] / 1000.0, "Mem": o["mem"],
                "Ports": o["ports"]} for o in rnd["offers"]]
-    # a core process of its own per scenario (child mode): the step runs the FIRST offers round of the deployment and kills
+    # a core process of its own per scenario (child mode): the step runs the first offers round of each deployment and kills
     # the core - a panic of the OFFERS handler is an observation like any other, and deployment retries stay out
     return {"id": sid, "family": "C05", "agents": agents, "files": files, "core": {"child": True}, "scripts": [], "hooks": {},
-            "steps": [{"do": "c05_round", "env": "e1", "wf": wf, "timeout_ms": 10000}],
-            "model": {"offers": rnd["offers"], "descs": rnd["descs"], "classes": classes}}
+            "steps": [{"do": "c05_round", "env": "e1", "wf": wf, "timeout_ms": 10000, "n": rnd.get("deployments", 1)}],
+            "model": {"offers": rnd["offers"], "descs": rnd["descs"], "classes": classes, "deployments": rnd.get("deployments", 1)}}
 
 
 def project_rounds(lines, by_id):
-    """Master-side events of the whole-core simulation -> Round / Accept / Decline / RoundEnd / Panic lines
-    (first OFFERS round of every scenario)."""
+    """Master-side events of the whole-core simulation -> Round / Accept / Decline / RoundEnd / Panic lines: the first
+    OFFERS round of every deployment of every scenario (a C05Round record ends a deployment's segment)."""
     out = []
     nrounds, incomplete = 0, []
     per = {}
@@ -399,13 +453,14 @@ def project_rounds(lines, by_id):
         if s is None:
             continue
         m = s["model"]
-        rl = []
+        rl, done, bad = [], 0, False
         state = "before"
         for ln in per[scn]:
             ev = ln["ev"]
             if ev == "MOffers":
                 if state != "before":
-                    break            # a later round (deployment retry): not looked at
+                    state = "later"      # a retry of the same deployment: not looked at
+                    continue
                 offers = [{"id": o["id"], "host": o["host"], "attrs": o["attrs"], "cpus": int(round(o["cpus"] * 1000)),
                            "mem": int(round(o["mem"])), "ports": o["ports"]} for o in ln["offers"]]
                 rl.append({"ev": "Round", "scn": scn, "offers": offers, "descs": m["descs"], "exec": EXEC})
@@ -413,7 +468,7 @@ def project_rounds(lines, by_id):
             elif ev == "MAccept" and state == "open":
                 tasks = []
                 for t in ln["tasks"]:
-                    tasks.append({"desc": m["classes"].get(t["class"], t["class"]), "cpu": int(round(t["cpu"] * 1000)),
+                    tasks.append({"desc": t.get("tag") or m["classes"].get(t["class"], t["class"]), "cpu": int(round(t["cpu"] * 1000)),
                                   "mem": int(round(t["mem"])), "ports": t["ports"]})
                 for oid in ln["offers"]:
                     rl.append({"ev": "Accept", "scn": scn, "offer": oid, "tasks": tasks})
@@ -423,20 +478,26 @@ def project_rounds(lines, by_id):
                 if ln.get("error"):
                     raise vlib.Inconclusive("coresim scenario %d: %s" % (scn, ln["error"]))
                 if ln["panic"] or not ln["alive"]:
-                    if state != "open":
+                    if state == "before":
                         raise vlib.Inconclusive("the core of scenario %d died outside an OFFERS round: %s" % (scn, ln["panic"]))
                     rl.append({"ev": "Panic", "scn": scn, "what": ln["panic"] or "core process gone"})
-                    state = "closed"
-                elif not ln["complete"]:
-                    state = "incomplete"
+                    done += 1
+                    break
+                if not ln["complete"] or state == "before":
+                    bad = True
+                    break
+                rl.append({"ev": "RoundEnd", "scn": scn})
+                done += 1
+                state = "before"
+                if done >= m.get("deployments", 1):
+                    break            # whatever the dying core still sends is not part of the scenario
+            elif ev == "End":
                 break
-        if state == "open":
-            rl.append({"ev": "RoundEnd", "scn": scn})
-        elif state != "closed":
+        if bad or done == 0:
             incomplete.append(scn)
             continue
         out += rl
-        nrounds += 1
+        nrounds += done
     return out, nrounds, incomplete
 
 
@@ -454,9 +515,20 @@ def outcome_lines(scn, o):
            "undeployable": verdict["undeployable"]}
 
 
-def selftest(ctx, binp, k_rep, k_code):
+def gen_rounds(ctx, k_code):
+    """The rounds of the catalogue (ROUND) and every outcome of the implementation-shaped model of the code on them (OUTCOME)."""
+    g = ctx.tlc("PlacementGen", None, workers=1, cfg_text=cfg("GenRoundSpec", k_code, ["EmitRound"]), timeout=300)
+    outs = g.records("OUTCOME")
+    rounds = g.records("ROUND")
+    if not g.no_error or not outs or not rounds:
+        ctx.save_debug(g, "tlc_genround.txt")
+        raise vlib.Inconclusive("round generation failed: %s" % vlib.tail(g.out, 8))
+    return outs, rounds
+
+
+def selftest(ctx, binp, k_rep, k_code, outs):
     """SELF-TEST of the round-level trace specification on synthetic rounds - no evidence about the real scheduler.
-    Returns the OUTCOME and ROUND records of the implementation-shaped model under the constants of the code."""
+    outs: the OUTCOME records of the implementation-shaped model under the constants of the code."""
     tcfg = lambda k: "SPECIFICATION TraceSpec\n" + k + "INVARIANT PrintEnd\nCHECK_DEADLOCK FALSE\n"
     # (a) toy allocator of the driver, faults injected per round
     tf_ = ctx.path("synth.ndjson")
@@ -483,12 +555,6 @@ def selftest(ctx, binp, k_rep, k_code):
         ctx.save_debug(r, "tlc_synth.txt")
         raise vlib.Inconclusive("SELF-TEST of the round-level trace specification failed: " + "; ".join(bad[:4]))
     # (b) outcomes of the implementation-shaped TLA+ model of the code: monitor verdict must equal the model's, zero drift
-    g = ctx.tlc("PlacementGen", None, workers=1, cfg_text=cfg("GenRoundSpec", k_code, ["EmitRound"]), timeout=300)
-    outs = g.records("OUTCOME")
-    rounds = g.records("ROUND")
-    if not g.no_error or not outs:
-        ctx.save_debug(g, "tlc_genround.txt")
-        raise vlib.Inconclusive("SELF-TEST: round generation failed: %s" % vlib.tail(g.out, 8))
     mf = ctx.path("modelrounds.ndjson")
     lines = []
     for i, o in enumerate(outs):
@@ -517,4 +583,3 @@ def selftest(ctx, binp, k_rep, k_code):
         "model_outcomes": len(outs), "model_outcomes_violating": sum(1 for i in range(len(outs)) if got2.get(20000 + i))}
     ctx.log("self-test: %d toy rounds, %d model outcomes (%d violating) - trace specification agrees" % (
         len(expect), len(outs), ctx.extra["round_trace_spec_selftest"]["model_outcomes_violating"]))
-    return outs, rounds
